@@ -229,3 +229,22 @@ def marker_c14(timeout_ms=None):
             "distributive-2": lambda ex: (B(ex, OR, a, B(ex, AND, b, c)), B(ex, AND, B(ex, OR, a, b), B(ex, OR, a, c)))}
     cases = [{"name": n, "pre": [], "thunk": f, "post": (lambda ex, v, n=n: [(f"law.C14.markers.{n}.equivalent", ev(v[0].term) == ev(v[1].term))])} for n, f in laws.items()]
     return verify.verify_cases(ix, th, "law:markers.C14", cases, timeout_ms=timeout_ms)
+
+
+# ---------------------------------------------------------------- atom layer
+def atom_function(name, timeout_ms=None, vc_slice=None):
+    from pyvc import extract, verify
+    from pyvc.theories.atoms import AtomTheory
+    from contracts import atoms as C
+    ix = extract.Index()
+    th = AtomTheory(ix)
+    contracts = C.all_contracts(th)
+    c = contracts[name]
+    use = [t for t in contracts if t != name and t.endswith("OrderedSet.__init__")]
+    real = {t: k for t, k in contracts.items() if hasattr(k, "ensures")}
+    if hasattr(c, "ensures"):
+        return verify.verify_function(ix, th, c, use_contracts=use, contracts=real, loop_specs=C.loop_specs(th), timeout_ms=timeout_ms, vc_slice=vc_slice)
+    rep = verify.verify_cases(ix, th, name, list(c.cases(th)), use_contracts=use, contracts=real, loop_specs=C.loop_specs(th), timeout_ms=timeout_ms)
+    rep.functions[name]["hash"] = ix.func(name).source_hash()
+    rep.functions[name]["mode"] = "verified against its contract"
+    return rep
